@@ -4,6 +4,7 @@
   Part 1 (this section): the Spec's opcode table is unambiguous — the fixed bits of any two rows
   conflict, so a word sequence matches at most one row and `classify` returns it.
 -/
+import H8.Props.C07R.Base
 import H8.Props.Common
 import H8.Gen.Dispatch
 namespace H8.Props.C07
@@ -92,12 +93,8 @@ theorem pat_of_classify (f : Form) (hne : f ≠ .UNDEF) (w0 w1 w2 w3 w4 : BitVec
   every run; `Model.exec` interprets a leaf `unimpl` / `bail` as an error.
 -/
 
-set_option hygiene false in
-local macro "route_tac" pl:ident : tactic => `(tactic|
-  (rw [$pl:ident] at hp; simp only [Bool.and_eq_true, beq_iff_eq] at hp
-   simp only [Gen.exec_route, Gen.exec_route_0, Gen.mov_b_route, Gen.mov_b_abs_16_or_24_route]
-   bv_decide))
-
+-- `route_tac` comes from C07R/Base.lean (shared with the routing theorems of the valid forms)
+open H8.Props.C07R in
 theorem NOP_rejected (w0 w1 w2 w3 w4 : BitVec 16) (hp : Form.pat .NOP w0 w1 w2 w3 w4 = true) :
     Gen.exec_route w0 = .unimpl := by route_tac pat_NOP
 theorem SLEEP_rejected (w0 w1 w2 w3 w4 : BitVec 16) (hp : Form.pat .SLEEP w0 w1 w2 w3 w4 = true) :
